@@ -482,6 +482,11 @@ func AccessPath(v ssa.Value) (string, bool) {
 		return "*" + p, true
 	case *ssa.ChangeType:
 		return AccessPath(x.X)
+	case *ssa.Extract, *ssa.TypeAssert, *ssa.Call, *ssa.Phi:
+		// a register holding a pointer is immutable: components reached through it are storage paths
+		if _, isPtr := v.Type().Underlying().(*types.Pointer); isPtr {
+			return fmt.Sprintf("reg(%s@%p)", v.Name(), v), true
+		}
 	}
 	return "", false
 }
